@@ -324,6 +324,45 @@ def classify(prop, spec, viol, evs=None):
     def f10(k, m, ev):
         return ev is not None and dynref_with_later_instance(spec, ev)
 
+    # C14: unsound range rules
+    def f17(k, m, ev):
+        c = _call(ev)
+        return k in ("range-misses-feasible-value", "feasible-value-starved") and c is not None and mixed_sign_relational(c)
+
+    def f24r(k, m, ev):
+        c = _call(ev)
+        return k in ("range-misses-feasible-value", "feasible-value-starved") and c is not None and nonrandom_operand_overflows(c)
+
+    def f8(k, m, ev):
+        # the swizzler pins only the low d bits of the drawn target value (d = bit length of the largest magnitude
+        # in the inferred range it drew from); the bits above - including the sign bit - are left to the solver.
+        # A feasible value that shares its low d bits with another feasible value can thus have probability 0.
+        if not (k == "feasible-value-starved" and isinstance(ev, dict) and ev.get("starved_field")
+                and ev["starved_field"][1][0] == "int" and ev.get("ranges")):
+            return False
+        w, signed = ev["starved_field"][1][1], ev["starved_field"][1][2]
+        feas = [v for v in ev.get("feasible", []) if isinstance(v, int)]
+        for v in ev.get("starved", []):
+            ok = False
+            for lo, hi in ev["ranges"]:
+                if lo <= v <= hi:
+                    d = max(abs(lo), abs(hi)).bit_length()
+                    if d < w or signed:
+                        if any(u != v and (u - v) % (1 << d) == 0 for u in feas):
+                            ok = True
+            if not ok:
+                return False
+        return True
+
+    if prop == "C14":
+        if _all(viol, f17):
+            return "bounds-mixed-sign-compare"
+        if _all(viol, f24r):
+            return "bounds-unbounded-int-range"
+        if _all(viol, lambda k, m, ev: f17(k, m, ev) or f24r(k, m, ev)):
+            return "bounds-mixed-sign-compare"
+        if _all(viol, f8):
+            return "swizzle-pins-low-bits-only"
     if _all(viol, f23):
         return "bounds-empty-domain-indexerror"
     if _all(viol, f24):
